@@ -84,6 +84,9 @@ type Call struct {
 	// this receiver and these arguments, so a well-formed receiver must yield
 	// well-formed results. When false the operation may report failure.
 	Pre bool
+	// ObserveAnyway: an observer (writer) that C01 also runs when Pre is false - it cannot take the process down
+	// (no goroutines, panics are recoverable) and must leave live meshes alone whatever it makes of its input.
+	ObserveAnyway bool
 	// Intermediate: the operation is a documented building block whose result is
 	// completed by a following call (ClearAttributeData); its bare result is not
 	// claimed to be well-formed.
@@ -1322,7 +1325,7 @@ func All() []Op {
 	add(Op{Name: "obj.WriteMesh", Group: "export", Kind: Observe, Topo: isTri, Make: func(r *rand.Rand, m *modeling.Mesh, e *Env) Call {
 		rec := *m
 		matFile := []string{"", "mats.mtl"}[r.Intn(2)]
-		return Call{Desc: "obj.WriteMesh", Pre: isTri(rec.Topology()) && MaterialsConsistent(rec), Run: func() ([]modeling.Mesh, error) {
+		return Call{Desc: "obj.WriteMesh", Pre: isTri(rec.Topology()) && MaterialsConsistent(rec), ObserveAnyway: isTri(rec.Topology()), Run: func() ([]modeling.Mesh, error) {
 			buf := &bytes.Buffer{}
 			if err := obj.WriteMesh(rec, matFile, buf); err != nil {
 				return nil, err
